@@ -1,10 +1,11 @@
 """C03 - invariants are checked around every public operation on a constructed object."""
 import checker_cluster as K
+import ctor_cluster as T
 import elab_cluster as E
 import gen_checker as G
 
 PROP = "C03"
-CONE = sorted(set(K.MODEL_FILES + E.MODEL_FILES + ["Gen/Generated.v", "Proofs/SkelPinInv.v", "Proofs/CheckerFrame.v",
+CONE = sorted(set(K.MODEL_FILES + E.MODEL_FILES + T.MODEL_FILES + ["Proofs/CtorProofs.v", "Gen/Generated.v", "Proofs/SkelPinInv.v", "Proofs/CheckerFrame.v",
                                                      "Proofs/ElabSelect.v", "Props/C03.v"]))
 RULE_E = ("member selection: definition histories as for C17 (classes with / without DBC, single and multiple bases, "
           "members f/g/p/__init__/__new__/__setattr__/_priv/__repr__/__eq__ of every kind, invariants with check_on "
@@ -28,8 +29,12 @@ def gen_with_invs(rng, n):
 
 def run(tier, replay=None):
     out, build, problems = K.begin(PROP, tier, CONE, "Props/C03.v")
-    is_elab_replay = bool(replay) and "ops" in __import__("json").load(open(replay)).get("case", {})
-    if not replay or not is_elab_replay:
+    rp = __import__("json").load(open(replay)).get("case", {}) if replay else {}
+    is_elab_replay = "ops" in rp
+    is_ctor_replay = "chain" in rp
+    if not replay or is_ctor_replay:
+        T.run_into(out, build, problems, PROP, tier, replay=replay)
+    if not replay or not (is_elab_replay or is_ctor_replay):
         K.run_into(out, build, problems, PROP, tier, ["spec_C16", "spec_C09"], gen_with_invs, 800, 15000, RULE_C, replay=replay)
     if not replay or is_elab_replay:
         E.run(out, build, problems, PROP, tier, ["spec_C03_selection"], E.default_gen, 600, 10000, RULE_E, replay=replay,
